@@ -119,6 +119,49 @@ def value_members_rule(rep, f, field_ctx):
     rep.floor("C16.f", n, 20)
 
 
+def engine_accounting_rule(rep):
+    from ..engines import advance
+    rep.rule("C16.g", "the engine's block transfer keeps its place: XSerializeEngine::read(bytes, n) and write(bytes, n), interpreted "
+             "with concrete buffer geometry (buffer of 100, 10 bytes left in it) for n = 5, 10, 11, 110, 113, 210 — requests inside "
+             "the buffer, ending exactly at its end, spilling over, and ending exactly with a whole later buffer: afterwards the "
+             "stream position (buffers refilled/flushed x buffer size + cursor) has moved by exactly n and exactly n bytes were "
+             "copied — a read that ends with a whole buffer and leaves the cursor at its start serves the same bytes twice")
+    g = core.run_xa([os.path.join(core.REPO, "src/xercesc/internal/XSerializeEngine.cpp")], st=r"^XSerializeEngine::(read|write)$", flat=False)
+    n = 0
+    for q, side in (("XSerializeEngine::read", "load"), ("XSerializeEngine::write", "store")):
+        sts = [s_ for s_ in g.sts.get(q, []) if "XMLByte" in s_["sig"]]
+        if len(sts) != 1:
+            raise AnalysisBroken("%s(XMLByte*, XMLSize_t) not found" % q)
+        body = sts[0]["body"]
+        for req in (5, 10, 11, 110, 113, 210):
+            def hook(x, st, it):
+                nm = x[1].split("::")[-1]
+                if nm == "memcpy":
+                    k = it.ev(x[3][2], st)
+                    st.v["__copied"] = st.v.get("__copied", 0) + (k if k != advance.TOP else 10 ** 6)
+                    return advance.TOP
+                if nm in ("fillBuffer", "flushBuffer"):
+                    st.v["__turns"] = st.v.get("__turns", 0) + 1
+                    st.v["f:XSerializeEngine::fBufCur"] = 0
+                    return advance.TOP
+                return NotImplemented
+            env = {"f:XSerializeEngine::fBufStart": 0, "f:XSerializeEngine::fBufCur": 90, "f:XSerializeEngine::fBufLoadMax": 100,
+                   "f:XSerializeEngine::fBufEnd": 100, "f:XSerializeEngine::fBufSize": 100,
+                   "p:readLen": req, "p:writeLen": req}
+            it = advance.Interp(call_hook=hook)
+            outs = []
+            for kind, s2 in it.run(body, advance.State(env)):
+                cur = s2.v.get("f:XSerializeEngine::fBufCur")
+                outs.append((s2.v.get("__turns", 0) * 100 + cur if isinstance(cur, int) else None, s2.v.get("__copied", 0)))
+            n += 1
+            ok = len(outs) == 1 and outs[0] == (90 + req, req)
+            rep.ob("C16.g", "%s/n=%d" % (q.split("::")[-1], req), ok, "position +%d, %d bytes copied" % (req, req) if ok else
+                   "%s of %d bytes with 10 left in a buffer of 100: stream position afterwards %s (expected %d), bytes copied %s — the "
+                   "engine loses its place in the stream" % (q, req, [o[0] for o in outs], 90 + req, [o[1] for o in outs]),
+                   "src/xercesc/internal/XSerializeEngine.cpp:%s" % sts[0].get("line", 0))
+    rep.floor("C16.g", n, 12)
+
+
 def run(rep):
     f = core.library_facts()
     fns = _engine_functions(f)
@@ -164,6 +207,7 @@ def run(rep):
     rep.floor("C16.a/serialize", n, 60)
     persisted_rule(rep, field_ctx)
     value_members_rule(rep, f, field_ctx)
+    engine_accounting_rule(rep)
 
     # ------------------------------------------------------------------ C16.a templates
     rep.rule("C16.a/template", "every XTemplateSerializer::storeObject(C*) has a loadObject(C**) for the same container type "
